@@ -116,3 +116,101 @@ def ab_b(x): return jnp.square(jnp.abs(x))
 def ab_c(x): return jnp.absolute(x) * jnp.absolute(x)
 def tk_a(m, i): return m[i]
 def tk_b(m, i): return jnp.take(m, i, axis=0)
+
+
+# ---------------- python-level idioms
+def lp_a(xs):
+    out = []
+    for v in xs:
+        out.append(v * 2)
+    return out
+def lp_b(xs): return [v * 2 for v in xs]
+def lp_c(xs): return list(map(lambda v: v * 2, xs))
+def lp_d(xs): return [*(v * 2 for v in xs)]
+def er_a(x, flag):
+    if flag is None:
+        r = x
+    else:
+        r = x * flag
+    return r
+def er_b(x, flag):
+    if flag is None:
+        return x
+    return x * flag
+def er_c(x, flag): return x if flag is None else x * flag
+def er_d(x, flag):
+    r = x
+    if flag is not None:
+        r = r * flag
+    return r
+def dg_a(d): return d['a'] if 'a' in d else 0
+def dg_b(d): return d.get('a', 0)
+def dg_c(d):
+    try:
+        return d['a']
+    except KeyError:
+        return 0
+def st_a(xs):
+    first, *rest = xs
+    return first + sum(rest)
+def st_b(xs): return xs[0] + sum(xs[1:])
+def st_c(xs): return functools.reduce(operator.add, xs)
+def kw_a(f, x, y): return f(x, y=y)
+def kw_b(f, x, y): return f(*(x,), **{'y': y})
+def kw_c(f, x, y):
+    args = (x,)
+    kwargs = dict(y=y)
+    return f(*args, **kwargs)
+def cl_a(xs): return [(lambda v, k=k: v * k)(x) for k, x in enumerate(xs)]
+def cl_b(xs):
+    out = []
+    for k, x in enumerate(xs):
+        def g(v, k=k):
+            return v * k
+        out.append(g(x))
+    return out
+def cl_c(xs): return [x * k for k, x in zip(range(len(xs)), xs)]
+def ag_a(d):
+    out = dict(d)
+    out['a'] += 1
+    return out
+def ag_b(d): return {**d, 'a': d['a'] + 1}
+def ag_c(d): return {k: (v + 1 if k == 'a' else v) for k, v in d.items()}
+def an_a(xs): return any(v is None for v in xs)
+def an_b(xs): return None in xs
+def an_c(xs): return len([v for v in xs if v is None]) > 0
+def wl_a(d):
+    v = d.get('a')
+    if v is not None:
+        return v * 2
+    return 0
+def wl_b(d):
+    if (v := d.get('a')) is not None:
+        return v * 2
+    return 0
+def ii_a(o): return isinstance(o, (int, float))
+def ii_b(o): return isinstance(o, int) or isinstance(o, float)
+def ii_c(o): return type(o) in (int, float)
+def so_a(d): return [d[k] for k in sorted(d)]
+def so_b(d): return [v for _, v in sorted(d.items())]
+def so_c(d): return [d[k] for k in sorted(d.keys())]
+def ga_a(o): return o.a if hasattr(o, 'a') else None
+def ga_b(o): return getattr(o, 'a', None)
+def tp_a(x, y): return tuple([x, y])
+def tp_b(x, y): return (x, y)
+def tp_c(x, y): return (*[x], y)
+def mx_a(a, b): return max(a, b)
+def mx_b(a, b): return a if a >= b else b
+def nm_a(xs): return [v for i, v in enumerate(xs) if i % 2 == 0]
+def nm_b(xs): return xs[::2]
+def nm_c(xs): return list(xs[0::2])
+def zp_a(ks, vs): return dict(zip(ks, vs))
+def zp_b(ks, vs): return {k: v for k, v in zip(ks, vs)}
+def zp_c(ks, vs): return {ks[i]: vs[i] for i in range(len(ks))}
+def ta_a(p, v): return eqx.tree_at(lambda q: (q.nn_params, q.eq_params), p, (v, p.eq_params))
+def ta_b(p, v): return eqx.tree_at(lambda q: q.nn_params, p, v)
+def ta_c(p, v): return eqx.tree_at(lambda q: q.nn_params, eqx.tree_at(lambda q: q.eq_params, p, p.eq_params), replace=v)
+def msk_a(p): return jnp.count_nonzero(p == 0)
+def msk_b(p): return jnp.sum(p == 0)
+def msk_c(p): return (p == 0).sum()
+def msk_d(p): return jnp.sum(jnp.where(p == 0, 1, 0))
